@@ -32,7 +32,8 @@ def run(ctx):
             gi, mi = ctx.rng.choice(slots)
             m = cfg["pipe"][gi][mi]
             m.update(kind="raise", b=ctx.rng.choice(["ValueError", "KeyError", "RuntimeError", "ZeroDivisionError",
-                                                     "ProbeError", "TypeError", "OSError"]),
+                                                     "ProbeError", "TypeError", "OSError", "StopIteration",
+                                                     "AssertionError", "LookupError"]),
                      args=f"boom {k} in {m['name']}", mask=ctx.rng.choice([-1, 1, 2, 4, 6]))
         jobs.append(dict(cfg=cfg, construction=ctx.rng.choice(["python", "yaml"])))
     traces = P.record(jobs)
